@@ -6,7 +6,7 @@
    fragments they call).  The record called "filter" in the design is [fdesc] here (the name
    clashes with List.filter); [dfilter] is the data-plane form. *)
 From Coq Require Import List NArith Bool String.
-From GoUpf Require Import Bytes FlowTypes FlowSpec FlowDesc FlowDescProofs FlowDescShape.
+From GoUpf Require Import Bytes FlowTypes FlowSpec FlowDesc FlowDescProofs FlowDescShape FlowDescGen Pdi PdiProofs.
 Import ListNotations.
 Local Open Scope N_scope.
 
@@ -76,6 +76,23 @@ Print Assumptions C16_total.
 Theorem C16_source_shape : source_shape = model_shape.
 Proof. exact source_shape_ok. Qed.
 Print Assumptions C16_source_shape.
+
+(* "with source and destination exchanged for uplink PDRs": which PDR is uplink is decided by the PDI's Source
+   Interface, wherever that IE stands among the PDI's IEs.  The evaluation order the tree uses (filters packed
+   while scanning, or after the scan) is read from newPdi on every run (fd_pdi_sdf_in_scan, fd_pdi_sdf_calls,
+   fd_sdf_swap_when); under it every filter k of a PDI with one Source Interface IE v is exchanged iff v = Access. *)
+Theorem C16_pdi_direction_any_ie_order : forall pre post v, no_srcif pre -> no_srcif post ->
+  fd_sdf_swap_when = "srcIf == ie.SrcInterfaceAccess"%string /\ fd_pdi_sdf_calls = 1 /\
+  pdi_sdf_swaps fd_pdi_sdf_in_scan (pre ++ PSrcIf v :: post)
+  = map (fun k => (k, N.eqb v access)) (sdf_ids pre ++ sdf_ids post).
+Proof. intros pre post v H1 H2. split; [reflexivity|split; [reflexivity|]]. exact (after_scan_order_independent pre post v H1 H2). Qed.
+Print Assumptions C16_pdi_direction_any_ie_order.
+
+(* the other evaluation order does not have the property: a filter in front of a Core Source Interface *)
+Theorem C16_pdi_in_scan_refuted : pdi_sdf_swaps true [PSdf 1; PSrcIf 1] = [(1, true)]
+                                  /\ pdi_sdf_swaps false [PSdf 1; PSrcIf 1] = [(1, false)].
+Proof. exact in_scan_refuted. Qed.
+Print Assumptions C16_pdi_in_scan_refuted.
 
 (* non-vacuity: a concrete rule with both port lists, odd spacing and leading zeros *)
 Definition ex_rule : rule :=
